@@ -127,8 +127,21 @@ func (info *NodeInfo) DecodeJSON(b []byte, enc encoder.Encoder) error {
 
 	params := isaac.NewParams(info.networkID)
 
-	if err := encoder.Decode(enc, u.Local.LocalParams, params); err != nil {
+	// NOTE Params can be registered in the encoder as a pointer
+	// instance(launch.Hinters) or as a value instance; accept the both.
+	switch i, err := enc.Decode(u.Local.LocalParams); {
+	case err != nil:
 		return e.Wrap(err)
+	case i == nil:
+	default:
+		switch t := i.(type) {
+		case *isaac.Params:
+			params = t
+		default:
+			if err := util.SetInterfaceValue(i, params); err != nil {
+				return e.Wrap(err)
+			}
+		}
 	}
 
 	if err := params.SetNetworkID(info.networkID); err != nil {
@@ -146,7 +159,12 @@ func (info *NodeInfo) DecodeJSON(b []byte, enc encoder.Encoder) error {
 	// NOTE suffrage
 	info.suffrageHeight = u.Consensus.Suffrage.Height
 
-	info.consensusNodes = make([]base.Node, len(u.Consensus.Suffrage.Nodes))
+	info.consensusNodes = nil
+
+	if len(u.Consensus.Suffrage.Nodes) > 0 {
+		info.consensusNodes = make([]base.Node, len(u.Consensus.Suffrage.Nodes))
+	}
+
 	for i := range u.Consensus.Suffrage.Nodes {
 		if err := encoder.Decode(enc, u.Consensus.Suffrage.Nodes[i], &info.consensusNodes[i]); err != nil {
 			return e.Wrap(err)
